@@ -121,16 +121,21 @@ class ValuesOf:
 
 
 class CubeStub:
-    """The DataArray the accessor wraps: dims, one indexed dimension of length L, positional slicing recorded."""
+    """The DataArray the accessor wraps: dims, one indexed dimension of length L (the others have size 2), slicing recorded."""
 
     def __init__(self, dims, dim, index):
         self.dims, self.dim, self.index = tuple(dims), dim, index
+
+    def pysym_len(self, it, st):
+        return len(self.index.labels) if self.dims[0] == self.dim else 2
 
     def pysym_getattr(self, it, st, attr):
         if attr == "dims":
             return self.dims
         if attr == "sizes":
-            return {self.dim: len(self.index.labels)}
+            return {d: (len(self.index.labels) if d == self.dim else 2) for d in self.dims}
+        if attr == "shape":
+            return tuple(len(self.index.labels) if d == self.dim else 2 for d in self.dims)
         if attr == self.dim:
             return CoordStub(self.index)
         raise Unsupported(f"DataArray.{attr}")
@@ -205,7 +210,7 @@ def worker(w, cfg):
             if x is not None:
                 assume += [2 * x != labels[i] + labels[i + 1] for i in range(L - 1)]
     index = IndexStub(labels)
-    cube = CubeStub((dim, "y", "x"), dim, index)
+    cube = CubeStub((dim, "y", "x") if cfg.get("lead", True) else ("y", "x", dim), dim, index)
     cls = it.get_function("hdc.algo.accessors", "IterativeAggregation")
     cls.link_bases(it)
     inst = Instance(cls)
@@ -240,7 +245,7 @@ def worker(w, cfg):
     def conc(m):
         return {"L": L, "labels": [C.model_value(m, x) for x in labels], "n": C.model_value(m, n) if has_n else None,
                 "begin": C.model_value(m, b) if has_b else None, "end": C.model_value(m, e) if has_e else None,
-                "method": meth, "which": which, "dim": dim}
+                "method": meth, "which": which, "dim": dim, "lead": cfg.get("lead", True)}
     # unlocatable label => ValueError (and nothing yielded)
     w.discharge("iteragg.unlocatable_raises", assume + [z3.Not(located)], raised_ve, lemmas=lem, concretize=conc,
                 known_preds={}, sample=False)
@@ -314,7 +319,8 @@ def configs(tier):
                     for has_n in (True, False):
                         which = "sum" if (L + has_b + 2 * has_e) % 3 == 0 else ("mean" if (L + has_b) % 2 else "full")
                         dim = "time" if (L + has_e) % 2 == 0 or which == "sum" else "band"
-                        cf.append({"L": L, "method": meth, "begin": has_b, "end": has_e, "n": has_n, "which": which, "dim": dim})
+                        cf.append({"L": L, "method": meth, "begin": has_b, "end": has_e, "n": has_n, "which": which, "dim": dim,
+                                   "lead": (L + has_b + has_n) % 2 == 0})
     if tier == "thorough":
         extra = []
         for c in cf:
